@@ -1,5 +1,5 @@
 // C12 — the optimize option changes hints only, never what is rendered (metamorphic twin execution).
-import { mulberry32, held, violated, inconclusive, short, optLabel } from './lib.mjs';
+import { mulberry32, ModuleBuilder, held, violated, inconclusive, short, optLabel } from './lib.mjs';
 import { evalSemantic, firstDiff, eraseHints } from './semantic.mjs';
 import * as C01 from './C01.mjs';
 import * as C02 from './C02.mjs';
@@ -13,8 +13,34 @@ import * as C10 from './C10.mjs';
 export const id = 'C12';
 const SOURCES = { C01, C02, C03, C04, C05, C11, C06, C10 };
 
+/** forms whose reading the other properties leave open (parenthesised single children) or that need module state: only the twin comparison applies */
+function* ownGroups() {
+  let k = 0;
+  const mk = (pre, thunkSrc, feature, setup = () => {}) => {
+    const b = new ModuleBuilder();
+    b.importDefault('probe:C0', 'C0');
+    const g = b.global({ k: 'str', v: 'G' }), gs = b.global({ k: 'slots', v: { default: { k: 'slotfn', id: 'own.default' } } }), f = b.fnGlobal({ k: 'vnode', id: 'fv' });
+    setup(b);
+    for (const p of pre) b.pre.push(p);
+    b.thunks.push(thunkSrc.replace(/\bG\b/g, g).replace(/\bGS\b/g, gs).replace(/\bF\b/g, f));
+    const variants = [];
+    for (const o of [{}, { enableObjectSlots: false }, { mergeProps: false }]) { variants.push({ vid: `p${variants.length / 2}#0`, options: { ...o, optimize: false } }); variants.push({ vid: `p${(variants.length - 1) / 2}#1`, options: { ...o, optimize: true } }); }
+    return { gid: `C12-own-${k++}`, src: b.source(), syntax: 'jsx', spec: { thunks: [{ name: 't0' }], env: b.env }, feature: `own|${feature}`, variants, pairs: ['p0', 'p1', 'p2'] };
+  };
+  const PAREN = ['<C0>{(G)}</C0>', '<C0>{(GS)}</C0>', '<C0>{(F())}</C0>', '<C0>{(() => [F()])}</C0>', '<C0>{(function () { return [G]; })}</C0>', '<C0>{({ default: () => [G] })}</C0>', '<div>{({ a: 1 })}</div>', '<div>{(G)}</div>', '<>{(F())}</>', '<C0>{((G))}</C0>', '<C0 v-slots={(GS)}>{(G)}</C0>', '<div>{(null)}</div>', '<C0>{(G)}{(F())}</C0>'];
+  for (const j of PAREN) for (const ctx of ['arrow', 'fn']) yield mk([], ctx === 'arrow' ? `export const t0 = () => ${j};` : `export function t0() {\n  return ${j};\n}`, `paren|${j}|${ctx}`);
+  // an assignment whose JSX holds several components: which of them sees the remembered target must not depend on optimize
+  const ASSIGN = ['<div><A0>{y}</A0><B0>{x}</B0></div>', '<Outer><A0>{F()}</A0><B0>{x}</B0></Outer>', '<A0><B0>{y}</B0><B1>{x}</B1><B2>{x}</B2></A0>', '<div><A0>{x}</A0><B0>{x}</B0></div>', '<><A0>{F()}</A0>{x}<B0>{x}</B0></>'];
+  for (const j of ASSIGN) for (const ctx of ['arrowBlock', 'fn']) {
+    const pre = ['let x = "prev", y = "why";'];
+    const t = ctx === 'arrowBlock' ? `export const t0 = () => { x = ${j}; return x; };` : ctx === 'fn' ? `export function t0() {\n  x = ${j};\n  return x;\n}` : `x = ${j};\nexport const t0 = () => x;`;
+    yield mk(pre, t, `assignNested|${j}|${ctx}`);
+  }
+}
+
 export function* generate({ tier, seed }) {
   const rng = mulberry32(seed * 2654435761 + 19);
+  yield* ownGroups();
   const keep = tier === 'quick' ? { C01: 0.12, C02: 0.05, C03: 0.25, C04: 0.12, C05: 0.3, C11: 0.12, C06: 0.08, C10: 0.04 } : { C01: 0.15, C02: 0.05, C03: 1, C04: 0.5, C05: 1, C11: 0.15, C06: 0.2, C10: 0.15 };
   for (const [name, mod] of Object.entries(SOURCES)) {
     for (const g of mod.generate({ tier, seed })) {
